@@ -136,7 +136,7 @@ func init() {
 func init() {
 	register(&propDef{
 		id: "C17",
-		explanation: "Decides structural clauses of C17: (det) sentence 1 completely, modulo the standard library: in the package and the reachable part of govalues/decimal there is no range over a map, goroutine, channel, select, time/rand/os/runtime/sync use, pointer-to-integer conversion or %p formatting, and no package-level variable is ever written, so equal inputs give bit-identical outputs; (cmp) the comparison closures handed to sort.Slice are strict weak orders on every ordering of their keys; (mirror) in every `switch fillRule` the Negative arm is the Positive arm with all winding operands negated, and the contribution tables are sign-mirrors — the structural form of 'all paths reversed with Positive and Negative exchanged'; (sym) the contribution table ignores the polytype for Union/Intersection/Xor (subject/clip exchange). Does NOT decide permutation/rotation/duplication invariance of the region or lattice symmetries of the sweep.",
+		explanation: "Decides structural clauses of C17: (det) sentence 1 completely, modulo the standard library: in the package and the reachable part of govalues/decimal there is no range over a map, goroutine, channel, select, time/rand/os/runtime/sync use, pointer-to-integer conversion or %p formatting, and no package-level variable is ever written, so equal inputs give bit-identical outputs; (cmp) the comparison closures handed to sort.Slice are strict weak orders on every ordering of their keys; (mirror) in every `switch fillRule` the Negative arm is the Positive arm with all winding operands negated, and the contribution tables are sign-mirrors — the structural form of 'all paths reversed with Positive and Negative exchanged'; (sym) the contribution table ignores the polytype for Union/Intersection/Xor (subject/clip exchange); (dup) while a path becomes the vertex ring an input point is skipped exactly when it equals the previously kept point, so repeating a vertex changes nothing and nothing else is dropped. Does NOT decide permutation/rotation invariance of the region or lattice symmetries of the sweep.",
 		notDecided: []string{"invariance under path permutation, start-vertex rotation, vertex duplication (tie-breaking in isValidAelOrder)", "path reversal under EvenOdd", "the 8 lattice symmetries (the sweep is not symmetric in Y by construction)", "horzSegSort is not antisymmetric (deviation, only region-equivalent output differences could be produced)"},
 		rules: []func(*Ctx){
 			ruleForbidden("C17.det", true),
